@@ -518,6 +518,11 @@ impl<'a> Run<'a> {
         if self.await_late(i) {
             let pid = child.unwrap_or(0);
             let tag = bg::tag(n);
+            if bg::site(n) == bg::SITE_TOOL_TIMEOUT {
+                // the call was abandoned by its `timeout_ms`: kill_on_drop takes the shell, not what the shell started
+                self.viol("overlap(timeout-survivor)", format!("{tag}: the bash call of actor {i} was abandoned by its timeout_ms (reached {p}: tool_failed timeout, lock released) while a child of its command (pid {pid}) was alive and still held the call's output stream(s) - the runner kills the shell only; {} and the child wrote {} - order of the observed events: {i} ended, {i} released, {}write by {i}'s command tree", match holder { Some(j) => format!("actor {j} ({:?}) then acquired the lock", self.sc.actors[j].kind), None => "nobody held the lock".to_string() }, self.late_file(i), match holder { Some(j) => format!("{j} acquired, "), None => String::new() }));
+                return true;
+            }
             match holder {
                 Some(j) => self.viol("overlap", format!("{tag}: actor {i} ended its execution (reached {p}) and handed the workspace lock on while a child of its command (pid {pid}) was alive and still held the execution's output stream(s); actor {j} ({:?}) then acquired the lock, and the child wrote {} while {j} was inside its span - order of the observed events: {i} ended, {i} released, {j} acquired, write by {i}'s command tree", self.sc.actors[j].kind, self.late_file(i))),
                 None => self.viol("unlocked-mutation", format!("{tag}: actor {i} ended its execution (reached {p}) and gave the workspace lock back (lock free: {free}) while a child of its command (pid {pid}) was alive and still held the execution's output stream(s); the child then wrote {} with nobody holding the lock for it", self.late_file(i))),
@@ -559,6 +564,7 @@ impl<'a> Run<'a> {
             CkptRewind => json!({"checkpoint": {"action": "rewind", "id": self.rewind_id.clone().unwrap_or_default()}}),
             Loop => return format!("please run the tools (actor {i})"),
             BashTimeout => json!({"tool": "bash", "args": self.tool_args(i, 0, k), "timeout_ms": 400}),
+            Bg(n) if bg::site(n) == bg::SITE_TOOL_TIMEOUT => json!({"tool": "bash", "args": self.tool_args(i, 0, k), "timeout_ms": 400}),
             _ => json!({"tool": k.tool_name(), "args": self.tool_args(i, 0, k)}),
         };
         v.to_string()
@@ -911,9 +917,14 @@ impl<'a> Run<'a> {
             }
             let t0 = Instant::now();
             let mut alive = true;
-            while alive && t0.elapsed() < Duration::from_secs(3) {
+            // (a `Bg` child sits in a FIFO the harness holds: whether it is there is known, nothing to wait for)
+            let patience = if self.cur_kind(i).is_bg() { Duration::ZERO } else { Duration::from_secs(3) };
+            while alive && t0.elapsed() <= patience {
                 alive = pid.map(pid_running).unwrap_or(false);
                 if alive {
+                    if patience.is_zero() {
+                        break;
+                    }
                     std::thread::sleep(Duration::from_millis(5));
                 }
             }
@@ -1755,6 +1766,11 @@ fn corpus_bg(seed: u64, thorough: bool) -> Vec<Scenario> {
             }
         }
     }
+    // a call abandoned by its timeout_ms while the child is pending (KNOWN_FINDINGS S30: the child survives)
+    for shape in [0u32, 2, 3] {
+        j += 1;
+        out.push(bg_scenario(bg::make(bg::SITE_TOOL_TIMEOUT, shape), seconds[j % seconds.len()], true, false));
+    }
     // through the agent-loop call site: the call in the middle of a run, alone and with company in one response
     let lp = |calls: &[Kind], batch| ActorSpec { kind: Loop, linked: true, calls: calls.to_vec(), batch };
     let w = ActorSpec { kind: Write, linked: true, calls: vec![], batch: false };
@@ -1764,7 +1780,7 @@ fn corpus_bg(seed: u64, thorough: bool) -> Vec<Scenario> {
 }
 
 fn gen_bg_scenario(r: &mut Rng) -> Scenario {
-    let n = bg::make(r.below(3) as u32, r.below(bg::SHAPES as u64) as u32);
+    let n = bg::make(r.below(bg::SITES as u64) as u32, r.below(bg::SHAPES as u64) as u32);
     let second = *r.pick(&[Write, BashQuick, Task, TaskPty, Patch, CkptCreate, CkptRewind, Bash, Shell]);
     let mut sc = bg_scenario(n, second, r.chance(1, 2), r.chance(1, 2));
     if r.chance(1, 2) {
